@@ -142,19 +142,36 @@ func sameErr(a, b error) bool {
 }
 
 // c05Others decodes a few records of other events: hex-encoded arguments, a unix socket path, a process title.
-func c05Others() {
-	for _, o := range []struct {
-		typ auparse.AuditMessageType
-		raw string
-	}{
-		{auparse.AUDIT_EXECVE, `audit(1700000002.789:4713): argc=3 a0="o0" a1=6F74686572206F74686572206F74686572206F74686572206F74686572206F74686572 a2=6F32206F32`},
-		{auparse.AUDIT_SOCKADDR, `audit(1700000003.000:4714): saddr=01002F72756E2F6F746865722F6F746865722F6F746865722E736F636B657400`},
-		{auparse.AUDIT_PROCTITLE, `audit(1700000004.000:4715): proctitle=6F74686572007469746C65006F74686572007469746C65`},
-	} {
+var c05OtherRecs = []struct {
+	typ auparse.AuditMessageType
+	raw string
+}{
+	{auparse.AUDIT_EXECVE, `audit(1700000002.789:4713): argc=3 a0="o0" a1=6F74686572206F74686572206F74686572206F74686572206F74686572206F74686572 a2=6F32206F32`},
+	{auparse.AUDIT_SOCKADDR, `audit(1700000003.000:4714): saddr=01002F72756E2F6F746865722F6F746865722F6F746865722E736F636B657400`},
+	{auparse.AUDIT_PROCTITLE, `audit(1700000004.000:4715): proctitle=6F74686572007469746C65006F74686572007469746C65`},
+}
+
+func c05OthersDigest() string {
+	var b strings.Builder
+	for _, o := range c05OtherRecs {
 		if m, err := auparse.Parse(o.typ, o.raw); err == nil {
-			_, _ = m.Data()
+			d, derr := m.Data()
+			fmt.Fprintf(&b, "%q %v\n", d, derr)
+		} else {
+			fmt.Fprintf(&b, "error %v\n", err)
 		}
 	}
+	return b.String()
+}
+
+var c05OthersRef = c05OthersDigest()
+
+// c05Others decodes the fixed records; what they decode to is compared with process start.
+func c05Others() error {
+	if d := c05OthersDigest(); d != c05OthersRef {
+		return fmt.Errorf("fixed records decoded after this input differ from how they decoded when the process started:\n  now   %s\n  start %s", d, c05OthersRef)
+	}
+	return nil
 }
 
 // totalityOracle is shared by the rapid property and the native fuzz targets.
@@ -170,7 +187,7 @@ func totalityOracle(c C05Case) (accepted bool, typ uint16, err error) {
 		return false, 0, fmt.Errorf("parse returned (msg nil=%v, err=%v): exactly one must be nil", m == nil, perr)
 	}
 	if m == nil {
-		return false, 0, nil
+		return false, 0, c05Others() // a refused input leaves nothing behind
 	}
 	d1, e1 := m.Data()
 	var d1copy map[string]string
@@ -186,7 +203,9 @@ func totalityOracle(c C05Case) (accepted bool, typ uint16, err error) {
 	// what the first calls returned, byte for byte (a fresh string: nothing in it shares memory with the results),
 	// then other records are decoded — their values go through the same decoders — and the calls are repeated
 	snap1 := fmt.Sprintf("%q | %q | %q", d1, t1, fmt.Sprint(ms1))
-	c05Others()
+	if err := c05Others(); err != nil {
+		return true, uint16(m.RecordType), err
+	}
 	if snap := fmt.Sprintf("%q | %q | %q", d1, t1, fmt.Sprint(ms1)); snap != snap1 {
 		return true, uint16(m.RecordType), fmt.Errorf("the results the first calls returned changed while other records were decoded:\n  were %s\n  are  %s", snap1, snap)
 	}
